@@ -289,7 +289,7 @@ EXCEPTIONS = {
 OUT_OF_SCOPE_UNITS = ("binary_",)
 
 
-def run(prog, heap=False, units=None, rule="R-PAIR", exceptions=None):
+def run(prog, heap=False, units=None, rule="R-PAIR", exceptions=None, floors=(100, 300)):
     exceptions = dict(EXCEPTIONS, **(exceptions or {}))
     res = RuleResult(rule, "every local GMP number that is initialised is cleared%s on every path to every return" % (
         " and every heap block held by a local pointer is released or handed over" if heap else ""))
@@ -361,6 +361,6 @@ def run(prog, heap=False, units=None, rule="R-PAIR", exceptions=None):
             res.sample({"function": f.name, "resources": sorted(an.init_sites)[:6], "verdict": "released on every returning path"}, limit=6)
     res.counts["functions_with_local_resources"] = n_funcs
     res.counts["local_resources"] = n_res
-    res.floor("functions with local GMP numbers", n_funcs, 100)
-    res.floor("local resources tracked", n_res, 300)
+    res.floor("functions with local GMP numbers", n_funcs, floors[0])
+    res.floor("local resources tracked", n_res, floors[1])
     return res
